@@ -152,7 +152,11 @@ var specC17 = reg(&checkSpec{
 	},
 })
 
-func TestVerif_C17(t *testing.T) { corpusReplay(t, specC17); runSpec(t, specC17) }
+func TestVerif_C17(t *testing.T) {
+	corpusReplay(t, specC17)
+	t.Run("schedules", func(t *testing.T) { runSpec(t, specC17) })
+	t.Run("stabilityfn", stabilityFn)
+}
 func TestVerif_C09(t *testing.T) { corpusReplay(t, specC09); runSpec(t, specC09) }
 func TestVerif_C10(t *testing.T) { corpusReplay(t, specC10); runSpec(t, specC10) }
 func TestVerif_C12(t *testing.T) { corpusReplay(t, specC12); runSpec(t, specC12) }
